@@ -28,7 +28,8 @@ HtGet(ht, h) == IF \E i \in 1..Len(ht) : ht[i].h = h
 Others(ht, h) == SelectSeq(ht, LAMBDA e : e.h # h)
 
 Apply(k, op, a, v) ==
-  CASE k = "set" -> SetApply(op, a, v)
+  CASE op \in SelfOps -> AliasApply(k, op, a, v)
+    [] k = "set" -> SetApply(op, a, v)
     [] k = "cc"  -> IF op = "cc_set" THEN (IF CCKnown(a.tag) THEN CCSet(a.tag, a.tv, v) ELSE R(v, "ood"))
                     ELSE IF op = "cc_del" THEN (IF CCKnown(a.tag) THEN R(DDel(v, CCDir[a.tag].key), "") ELSE R(v, "ood"))
                     ELSE DictApply(op, a, v)
@@ -109,11 +110,19 @@ GetStep(s, ln) ==
   IN [c |-> c, d |-> ValueOK(ln.k, ln.vp), s |-> [views |-> PutView(s.views, ln.vw, [k |-> ln.k, h |-> ln.h, v |-> ln.vp, live |-> TRUE]), ht |-> ln.ht2, nh |-> ln.nh2]]
 
 \* ---------------------------------------------------------------- whole-property assignment, del, direct header edit
-AssignExp(ln) ==       \* [ok, e: expected optional header text, n: expected number of lines, v: assigned abstract value or <<"-">>]
+AssignExp(s, ln) ==       \* [ok, e: expected optional header text, n: expected number of lines, v: assigned abstract value or <<"-">>]
   LET a == ln.a k == ln.k IN
   CASE ln.op = "direct_edit" -> [ok |-> TRUE, e |-> a.y, rt |-> FALSE, v |-> <<>>]
     [] ln.op = "del_prop"    -> [ok |-> TRUE, e |-> None, rt |-> FALSE, v |-> <<>>]
     [] a.tag = "none"        -> [ok |-> TRUE, e |-> None, rt |-> FALSE, v |-> <<>>]
+    \* response.<property> = an object that a view slot holds (the view read earlier -- maybe stale --, a view of another
+    \* property of the same kind, a kept object): the assignment takes its VALUE at assignment time
+    [] a.tag \in {"alias", "alias_list"} ->
+         LET src == IF a.n \in 1..8 THEN s.views[a.n] ELSE NoView v == src.v IN
+         IF src.k # k \/ ~ValueOK(k, v) \/ (a.tag = "alias_list" /\ k # "wa") THEN [ok |-> FALSE, e |-> None, rt |-> FALSE, v |-> <<>>]
+         ELSE [ok |-> TRUE,
+               e |-> IF Empty(k, v) THEN None ELSE Some(Ser(k, v, <<>>)),
+               rt |-> RoundTrips(k, v), v |-> IF Empty(k, v) THEN EmptyView(k) ELSE NF(k, v)]
     [] a.tag = "text"        -> [ok |-> Printable(a.x), e |-> IF a.x = <<>> THEN None ELSE Some(a.x), rt |-> FALSE, v |-> <<>>]
     [] a.tag = "mt"          -> [ok |-> a.x # <<>> /\ Printable(a.x), e |-> Some(ContentTypeFor(a.x)), rt |-> FALSE, v |-> <<>>]
     [] a.tag = "list" /\ k = "set" ->
@@ -131,7 +140,7 @@ AssignExp(ln) ==       \* [ok, e: expected optional header text, n: expected num
           rt |-> a.ws # <<>> /\ WARoundTrips(a.ws[1]), v |-> IF a.ws = <<>> THEN <<>> ELSE WANF(a.ws[1])]
     [] OTHER -> [ok |-> FALSE, e |-> None, rt |-> FALSE, v |-> <<>>]
 AssignStep(s, ln) ==
-  LET x   == AssignExp(ln)
+  LET x   == AssignExp(s, ln)
       now == HtGet(ln.ht, ln.h)
       nl  == IF ln.a.tag = "list" /\ ln.k = "wa" THEN Len(ln.a.ws) ELSE IF now = None THEN 0 ELSE 1
       c == IF ~x.ok THEN "ok"
@@ -158,6 +167,9 @@ AssignStep(s, ln) ==
              THEN PutView(s.views, ln.vw, [k |-> "csp", h |-> ln.h, v |-> IF good THEN DUpdate(<<>>, a.ps) ELSE ln.vp, live |-> FALSE])
              ELSE IF keeps /\ ln.k = "cr" /\ a.tag = "value"
              THEN PutView(s.views, ln.vw, [k |-> "cr", h |-> ln.h, v |-> IF good THEN [un |-> a.y, st |-> a.m1, sp |-> a.m2, ln |-> a.m3] ELSE ln.vp, live |-> FALSE])
+             \* www_authenticate = <object of a slot> (re)binds that object to this header
+             ELSE IF ln.op = "assign" /\ ln.k = "wa" /\ a.tag = "alias" /\ x.ok
+             THEN [s.views EXCEPT ![a.n] = [@ EXCEPT !.live = TRUE, !.h = ln.h]]
              ELSE s.views
       vs == IF keeps /\ ln.k = "wa" /\ a.tag = "list" /\ Len(a.ws) >= 2 /\ a.n > 0
             THEN PutView(vs1, a.n, [k |-> "wa", h |-> ln.h, v |-> a.ws[2], live |-> FALSE]) ELSE vs1
